@@ -76,4 +76,23 @@ E01((verif_exc == 0 && !advance) ==> self->offset == __CPROVER_old(self->offset)
 E01((verif_exc == 0 && advance) ==> (self->offset >= __CPROVER_old(self->offset) + ret->size && self->offset <= __CPROVER_old(self->offset) + ret->size + 2))
 E01((verif_exc == 0 && advance && self->offset < self->length) ==> self->data[self->offset - 1] == '\n')
 __CPROVER_assigns(verif_exc, self->offset, ret->size, __CPROVER_object_whole(ret->data));
+
+/* the accessor templates themselves, instantiated for int8_t, with an explicit size argument (get<T>(advance, size)):
+ * the whole requested slice [offset, offset+size) must be in range, the cursor advances by size */
+const int8_t* StringReader_pget__int8_t(const StringReader* self, size_t offset, size_t size)
+RD_REQ(self)
+E02(THROWS_OOR(INR(offset, size, self->length)))
+E02(verif_exc == 0 ==> __CPROVER_return_value == (const int8_t*)(self->data + offset))
+E01(verif_exc == 0 ==> __CPROVER_return_value == (const int8_t*)(self->data + offset))
+__CPROVER_assigns(verif_exc);
+
+const int8_t* StringReader_get__int8_t(StringReader* self, bool advance, size_t size)
+RD_REQ(self)
+E02(THROWS_OOR(INR(__CPROVER_old(self->offset), size, self->length)))
+E02(verif_exc == 0 ==> __CPROVER_return_value == (const int8_t*)(self->data + __CPROVER_old(self->offset)))
+E02(verif_exc != 0 ==> self->offset == __CPROVER_old(self->offset))
+E02(__CPROVER_old(self->offset) <= self->length ==> self->offset <= self->length)
+E01(verif_exc == 0 ==> self->offset == __CPROVER_old(self->offset) + (advance ? size : 0))
+E01(verif_exc == 0 ==> __CPROVER_return_value == (const int8_t*)(self->data + __CPROVER_old(self->offset)))
+__CPROVER_assigns(verif_exc, self->offset);
 #endif
